@@ -228,6 +228,11 @@ Proof.
         intros ? Hh; inversion Hh; subst; split;
         [intros ? Hp; apply Iitems; eapply history_read_prov; exact Hp | apply history_read_wf]
     end.
+  all: try (unfold has_start in *; rewrite ?existsb_app; rewrite Icws; reflexivity).
+  all: try (intros Hp; specialize (Ipre Hp); try match goal with E : cw _ = _ :: _ |- _ => rewrite E in Icws end;
+            unfold has_start in *; rewrite ?existsb_app; cbn [existsb] in *;
+            repeat match goal with H : (_ || _)%bool = false |- _ => apply orb_false_iff in H; destruct H end;
+            repeat match goal with H : _ = false |- _ => rewrite H end; reflexivity).
   (* LCheck on a publication *)
   pose proof (check_pub_fields c s p lag) as F. cbv zeta in F.
   destruct F as (F1 & F2 & F3 & F4 & F5 & F6 & F7 & F8 & F9 & F10 & F11 & F12 & F13 & F14 & F15 & F16).
